@@ -742,11 +742,11 @@ func TestC35(t *testing.T) {
 
 	// (i) programs
 	r := evid.Rand(3501)
-	nGen := evid.N(150, 5000)
+	nGen := evid.N(150, 800)
 	nHarvest := evid.N(250, 100000)
 	var childSources []string
 	var childWant []map[bool]string
-	nChild := evid.N(90, 1500)
+	nChild := evid.N(90, 300)
 	for i := 0; i < nGen; i++ {
 		p := genC35Program(r)
 		d := c.program(p.Source, "generated", p.Features, 5)
@@ -758,9 +758,12 @@ func TestC35(t *testing.T) {
 	rec.Extra("harvested_snippets", len(harvest))
 	perm := r.Perm(len(harvest))
 	accepted := 0
-	for _, idx := range perm {
+	for k, idx := range perm {
 		if accepted >= nHarvest {
 			break
+		}
+		if evid.Thorough() && k%evid.Shards() != evid.Shard() {
+			continue // thorough: the harvested corpus is partitioned over the shards
 		}
 		d := c.program(harvest[idx], "harvested", []string{"harvested"}, 5)
 		if d != nil {
@@ -773,16 +776,16 @@ func TestC35(t *testing.T) {
 	if g := rec.ClassCount("generator/accepted/generated"); g*10 < int64(nGen)*8 {
 		rec.Inconclusive(t, "only %d of %d generated programs pass the checker", g, nGen)
 	}
-	if accepted < min(nHarvest, 200) {
+	if accepted < min(nHarvest, 200/evid.Shards()) {
 		rec.Inconclusive(t, "only %d harvested snippets pass the checker", accepted)
 	}
 	c.children(childSources, childWant, 3)
 
 	// (ii) constructed instructions
-	c.instructions(evid.N(120_000, 4_000_000))
+	c.instructions(evid.N(120_000, 800_000))
 
 	// (iii) LEB128
-	c.leb128(evid.N(8_000, 400_000))
+	c.leb128(evid.N(8_000, 40_000))
 
 	rec.RequireClasses(t, "feature/inherited-default-functions>=2", "feature/contract-nested", "feature/closure", "feature/conformances-shuffled",
 		"child-process-compilations", "leb128/Int64/len10", "leb128/Uint32/len5", "leb128/Int32/padded")
